@@ -138,7 +138,8 @@ def _frame(ctx, repo, m):
     # sender: one write of the concatenated buffer, nothing awaited before it
     ctx.instance("C13-R1", send.fq)
     writes = [c for c in calls_in(send.node) if isinstance(c.func, ast.Attribute) and c.func.attr in ("write", "writelines")]
-    ok = len(writes) == 1 and writes[0].args and isinstance(writes[0].args[0], ast.Call) and callee_name(writes[0].args[0]) == enc.name
+    wa = resolve_single_assign(writes[0].args[0], send.node) if len(writes) == 1 and writes[0].args else None          # the buffer may be named first
+    ok = len(writes) == 1 and isinstance(wa, ast.Call) and callee_name(wa) == enc.name
     ctx.ob("C13-R1", send.fq, "a frame is emitted by exactly one write of the encoder's result", ok, node=send.node, construct="single write per frame",
            msg="a frame is written in several pieces: concurrent senders share one writer, so another frame can interleave between header and body")
     aw = [n for n in walk_local(send.node) if isinstance(n, ast.Await)]
